@@ -113,6 +113,16 @@ def run(prop, tier, seed, known):
                         if key != 'Information gain' and abs(ev[key] - ev2[key]) > 1e-9:
                             fails.append('beat %s changes under a common time shift of %s: %r vs %r (%s, start %s)' % (key, d, ev[key], ev2[key], kind, start))
                             break
+                # C08: P-score quantises beat times on a 10 ms grid laid from the first beat: offsets that are not multiples of 10 ms (but exact
+                # in binary, like every beat time here) still change nothing, also when the estimate sits near the edge of the correlation window
+                lag_ = rng.choice([13, 12, 14, 6, 19]) / 128.0
+                pe_ = ref + lag_
+                p0_ = guard('beat.p_score', lambda: beat.p_score(ref, pe_))
+                for dd_ in (1 / 128.0, 1 / 64.0, 3 / 128.0, 0.125 + 1 / 128.0):
+                    p1_ = guard('beat.p_score shifted', lambda: beat.p_score(ref + dd_, pe_ + dd_))
+                    if p0_ is not None and p1_ is not None and abs(p0_ - p1_) > 1e-9:
+                        fails.append('beat P-score changes under a common time shift of %s: %r vs %r (period %s, estimate %s s behind the reference)' % (dd_, p0_, p1_, period, lag_))
+                        break
                 # C04: Cemgil accuracy per its definition (Gaussian error of the closest estimate to every reference beat, normalised by the mean
                 # number of beats), and its best value over the five metrical variations built here independently
                 import math
@@ -189,6 +199,14 @@ def run(prop, tier, seed, known):
                     for key in ('F_est', 'P_est', 'R_est', 'F_occ.75', 'F_3', 'P_3', 'R_3', 'FFP', 'FFTP_est', 'F', 'P', 'R'):
                         if abs(pv[key] - 1.0) > 1e-9:
                             fails.append('perfect pattern estimate: %s = %r' % (key, pv[key]))
+                    # every threshold / tolerance setting in range, the largest included: a copy is still perfect
+                    for thr_ in (0.1, 0.5, 0.9, 1.0):
+                        of_ = guard('pattern.occurrence_FPR(x, x, thres=%s)' % thr_, lambda: pattern.occurrence_FPR(rp, [list(map(list, p)) for p in rp], thres=thr_))
+                        if of_ is not None and any(abs(v_ - 1.0) > 1e-9 for v_ in of_):
+                            fails.append('perfect pattern estimate: occurrence_FPR(thres=%s) = %r' % (thr_, tuple(float(v_) for v_ in of_)))
+                    ef_ = guard('pattern.establishment_FPR(x, x, thres=1.0)', lambda: pattern.establishment_FPR(rp, [list(map(list, p)) for p in rp], similarity_metric='cardinality_score'))
+                    if ef_ is not None and any(abs(v_ - 1.0) > 1e-9 for v_ in ef_):
+                        fails.append('perfect pattern estimate: establishment_FPR = %r' % (tuple(float(v_) for v_ in ef_),))
                 # swap exchanges precision and recall of establishment / occurrence / three-layer
                 sv = pattern.evaluate(ep, rp)
                 for a, b in (('P_est', 'R_est'), ('P_occ.75', 'R_occ.75'), ('P_3', 'R_3')):
@@ -402,6 +420,31 @@ def run(prop, tier, seed, known):
                         if abs(v - w_) > 1e-9:
                             fails.append('perfect multipitch estimate: %s = %r (frames %s)' % (key, v, [f_.tolist() for f_ in xfp_]))
                             break
+            # ---------------------------------------------------------------- interval arrays that are not n-by-2 are rejected with ValueError (C14)
+            if it % 10 == 0:
+                from mir_eval import util as _util, segment as _segment, chord as _chord
+                good_iv = np.array([[0.0, 1.0], [1.0, 2.5], [2.5, 4.0]])
+                shapes_ = [('1-D, two values', np.array([0.0, 4.0])), ('1-D, three values', np.array([0.0, 1.0, 4.0])), ('n-by-3', np.array([[0.0, 1.0, 2.0], [2.0, 3.0, 4.0]])),
+                           ('n-by-1', np.array([[0.0], [4.0]])), ('1-by-n-by-2', good_iv[np.newaxis]), ('n-by-1-by-2', good_iv[:, np.newaxis, :])]
+                entries_ = [('util.validate_intervals', lambda a: _util.validate_intervals(a)),
+                            ('util.intervals_to_durations', lambda a: _util.intervals_to_durations(a)),
+                            ('segment.detection (reference)', lambda a: _segment.detection(a, good_iv)),
+                            ('segment.detection (estimate)', lambda a: _segment.detection(good_iv, a)),
+                            ('segment.deviation (estimate)', lambda a: _segment.deviation(good_iv, a)),
+                            ('chord.overseg (reference)', lambda a: _chord.overseg(a, good_iv)),
+                            ('chord.seg (estimate)', lambda a: _chord.seg(good_iv, a)),
+                            ('transcription.onset_precision_recall_f1 (estimate)', lambda a: T.onset_precision_recall_f1(good_iv, a)),
+                            ('transcription.offset_precision_recall_f1 (reference)', lambda a: T.offset_precision_recall_f1(a, good_iv))]
+                for sname_, arr_ in shapes_:
+                    for ename_, call_ in entries_:
+                        n += 1
+                        try:
+                            r_ = call_(arr_.copy())
+                            fails.append('%s accepted (no ValueError raised) an interval array that is not n-by-2 (%s) and returned %r' % (ename_, sname_, r_))
+                        except ValueError:
+                            pass
+                        except Exception as ex:
+                            fails.append('%s raised %s instead of ValueError for an interval array that is not n-by-2 (%s)' % (ename_, type(ex).__name__, sname_))
             # ---------------------------------------------------------------- multipitch: single faults on either side are rejected (C14)
             nfr = rng.randint(1, 4)
             mt = np.arange(nfr) * 0.25
